@@ -1,4 +1,5 @@
 import AsyncVerif.Impl.Aggregations
+import AsyncVerif.Proofs.ReleaseMore
 import AsyncVerif.Proofs.Release
 import AsyncVerif.Proofs.Chain
 /-!
@@ -166,5 +167,17 @@ theorem C04_tuple (s fuel : Nat) (w : World) (h : (Impl.tuple s fuel w).1 ≠ .e
 theorem C04_nlargest_nsmallest (largest : Bool) (n : Nat) (fn : Option Nat) (s fuel : Nat) (w : World)
     (h : (Impl.nBest largest n fn s fuel w).1 ≠ .error .outOfFuel) :
     Released ((Impl.nBest largest n fn s fuel w).2.srcs s) := scopedIter_released s _ w h
+
+/-- `cycle`: the source is owned only during the first pass; the replay phase never touches it -/
+theorem C04_cycle (s fuel : Nat) (w : World) (h : (Impl.cycle s fuel w).1 ≠ .error .outOfFuel) :
+    Released ((Impl.cycle s fuel w).2.srcs s) :=
+  scoped_then_frame_released s _ _ (fun buf => srcsFrame_replay buf fuel []) w h
+
+/-- `sorted`: items and keys are collected inside the scope; sorting happens after the source was released -/
+theorem C04_sorted (fn : Option Nat) (reverse : Bool) (s fuel : Nat) (w : World)
+    (h : (Impl.sorted fn reverse s fuel w).1 ≠ .error .outOfFuel) :
+    Released ((Impl.sorted fn reverse s fuel w).2.srcs s) :=
+  scoped_then_frame_released s _ _
+    (fun keyed => srcsFrame_bind (srcsFrame_liftExc _) (fun r => srcsFrame_pure _)) w h
 
 end AsyncVerif
